@@ -46,6 +46,7 @@ func load() {
 
 // Reset clears per-run state (labels are numbered per run).
 func Reset() {
+	watched = nil
 	seen = map[string]int{}
 	Failures = nil
 	Reached = nil
@@ -303,3 +304,16 @@ func RFromFloat(f float64) Rat {
 	}
 	return Rat{r}
 }
+
+// FrameExempt: the object p points to (and what it owns) may change before FrameUnchanged.
+func FrameExempt(p interface{}) {}
+
+// ---------------------------------------------------------------------------
+// native frame observation (replay only): deep dump of the watched objects
+
+var watched []interface{}
+
+// FrameWatch registers objects whose complete state (including unexported fields, embedded
+// objects and maps) FrameBegin / FrameUnchanged compare natively. The engine ignores it: it
+// compares every heap cell anyway.
+func FrameWatch(objs ...interface{}) { watched = append(watched, objs...) }
